@@ -772,7 +772,7 @@ def _xcheck_regex():
     return remodel.xcheck()
 
 
-@contract(DC + "_is_hex", property="C18", replayable=False)
+@contract(DC + "_is_hex", property="C18")  # replayable: a str in, a bool out; the clause evaluates natively
 class is_hex_text:
     params = dict(text=Str())
     result = Bool
